@@ -1,6 +1,6 @@
 #!/bin/bash
 # seed_regress.sh [pattern]: re-run every stored seeded change against the current checks in a scratch worktree
-# (/tmp/wt/eval; /repo is not touched) and print one line per seed. Seeds whose meta.json says "missed" are
+# (/tmp/wt/regress; /repo is not touched) and print one line per seed. Seeds whose meta.json says "missed" are
 # expected to stay undetected; every other seed must produce a VIOLATION (exit 1).
 pat=${1:-.}
 out=/verif/.work/seed_regress.log
@@ -11,10 +11,10 @@ for d in /verif/seeded/*/; do
   echo $id | grep -qE "$pat" || continue
   prop=$(python3 -c "import json;print(json.load(open('$d/meta.json'))['property'])")
   want=$(python3 -c "import json;print(json.load(open('$d/meta.json')).get('status',''))")
-  res=$(SEED_WT=/tmp/wt/eval /verif/seed_eval.sh $d $prop 2>&1 | grep -E "^check .* exit" | sed 's/.*exit //')
+  res=$(SEED_WT=/tmp/wt/regress /verif/seed_eval.sh $d $prop 2>&1 | grep -E "^check .* exit" | sed 's/.*exit //')
   st=ok
   if [ "$want" = missed ]; then [ "$res" = 0 ] || st="CHANGED(now exit $res)"; else [ "$res" = 1 ] || { st="REGRESSION(exit $res)"; bad=1; }; fi
   echo "$id $prop expected=$want check-exit=$res $st" | tee -a $out
 done
-git -C /repo worktree remove --force /tmp/wt/eval 2>/dev/null
+git -C /repo worktree remove --force /tmp/wt/regress 2>/dev/null
 exit $bad
